@@ -2516,13 +2516,20 @@ func genGlobalVarDecl(nodes []*node, sc *scope) (*node, error) {
 		deps[n] = getVarDependencies(n, sc)
 	}
 
+	// Variables declared by an earlier evaluation are already initialized:
+	// only the variables of this batch have to be ordered.
+	batch := map[*node]bool{}
+	for _, n := range nodes {
+		batch[n] = true
+	}
+
 	inited := map[*node]bool{}
 	revisit := []*node{}
 	for {
 		for _, n := range nodes {
 			canInit := true
 			for _, d := range deps[n] {
-				if !inited[d] {
+				if batch[d] && !inited[d] {
 					canInit = false
 				}
 			}
